@@ -1196,6 +1196,26 @@ proof fn lemma_con_copy_mono(ts: Seq<TypeNode>, m: Map<TyID, TyID>, m2: Map<TyID
     requires con_copy(ts, m, c, d), seen_ext(m, m2),
     ensures con_copy(ts, m2, c, d),
 { reveal(con_copy); }
+/// the generics resolved so far are nodes of the graph
+spec fn sn_ok(m: Map<String, TyID>, n: int) -> bool { forall|k: String| #[trigger] m.contains_key(k) ==> (m[k].0 as int) < n }
+/// the constructor (see `head`) of a primitive type annotation
+spec fn prim_head(t: ResolverType) -> Option<int> {
+    match t {
+        ResolverType::Resolved(r, _) => match r {
+            RuntimeType::Unknown => Some(0int), RuntimeType::Void => Some(3int), RuntimeType::Nil => Some(4int), RuntimeType::Int => Some(5int),
+            RuntimeType::Float => Some(6int), RuntimeType::Bool => Some(7int), RuntimeType::String => Some(8int), _ => None,
+        },
+        _ => None,
+    }
+}
+/// a definition whose type annotation is a primitive type and whose value is a literal of another kind
+spec fn decl_lit_clash(st: Statement) -> bool {
+    match st {
+        Statement::Definition { ty, value, .. } => prim_head(ty) is Some && prim_head(ty)->Some_0 != 0
+            && lit_head(value) is Some && lit_head(value)->Some_0 != prim_head(ty)->Some_0,
+        _ => false,
+    }
+}
 /// the copies made so far are nodes of the graph
 spec fn seen_ok(m: Map<TyID, TyID>, n: int) -> bool { forall|k: TyID| #[trigger] m.contains_key(k) ==> (m[k].0 as int) < n }
 
@@ -2395,23 +2415,25 @@ impl TypeChecker {
         proof { axiom_string_key_order(); axiom_string_hash_key(); }
 //@   endghost
 //@   loop 1
-                    invariant self.inv2(), self.grows(old(self)), //# C02,C07 outer_statement.loop1.aux1
+                    invariant self.inv2(), self.grows(old(self)), sn_ok(seen@, self.types@.len() as int), //# C02,C07 outer_statement.loop1.aux1
                         ids_below(type_params@, self.types@.len() as int), //# C07 outer_statement.loop1.aux2
 //@   endloop
-//@   loop 2
+//@   loop 2 binder it
                     invariant self.inv2(), self.grows(old(self)), //# C02,C07 outer_statement.loop2.aux1
                         ids_below(type_params@, self.types@.len() as int), //# C07 outer_statement.loop2.aux2
-                        fields_in_range(resolved_variants, self.types@.len() as int), //# C07 outer_statement.loop2.aux3
+                        fields_in_range(resolved_variants, self.types@.len() as int), sn_ok(seen@, self.types@.len() as int), //# C07 outer_statement.loop2.aux3
+                        forall|j: int| 0 <= j < it.seq().len() ==> variants@.contains_pair(*(#[trigger] it.seq()[j]).0, *it.seq()[j].1), //# - outer_statement.loop2.aux5
                         vstd::std_specs::btree::key_obeys_cmp_spec::<String>(), //# C07 outer_statement.loop2.aux4
 //@   endloop
 //@   loop 3
-                    invariant self.inv2(), self.grows(old(self)), //# C02,C07 outer_statement.loop3.aux1
+                    invariant self.inv2(), self.grows(old(self)), sn_ok(seen@, self.types@.len() as int), //# C02,C07 outer_statement.loop3.aux1
                         ids_below(type_params@, self.types@.len() as int), //# C07 outer_statement.loop3.aux2
 //@   endloop
-//@   loop 4
+//@   loop 4 binder it
                     invariant self.inv2(), self.grows(old(self)), //# C02,C07 outer_statement.loop4.aux1
                         ids_below(type_params@, self.types@.len() as int), //# C07 outer_statement.loop4.aux2
-                        fields_in_range(resolved_fields, self.types@.len() as int), //# C07 outer_statement.loop4.aux3
+                        fields_in_range(resolved_fields, self.types@.len() as int), sn_ok(seen@, self.types@.len() as int), //# C07 outer_statement.loop4.aux3
+                        forall|j: int| 0 <= j < it.seq().len() ==> fields@.contains_pair(*(#[trigger] it.seq()[j]).0, *it.seq()[j].1), //# - outer_statement.loop4.aux5
                         vstd::std_specs::btree::key_obeys_cmp_spec::<String>(), //# C07 outer_statement.loop4.aux4
 //@   endloop
 //@ end
@@ -2473,17 +2495,111 @@ impl TypeChecker {
 //@   ret r
 //@   spec
         requires old(self).inv2(), //# C07 resolve_type.pre.inv
+            rt_ok(*ty, old(self).variables@.len() as int), //# C07 resolve_type.pre.type_is_translatable
         ensures final(self).inv2(), final(self).grows(old(self)), r is Ok ==> final(self).valid(r->Ok_0), //# C02,C07 resolve_type.keeps_invariant
+            r is Ok && prim_head(*ty) is Some ==> head(ty_of(final(self).types@, r->Ok_0)) == prim_head(*ty)->Some_0, //# C03 resolve_type.a_primitive_type_annotation_gives_that_type
 //@   endspec
+//@   ghost entry
+        broadcast use vstd::std_specs::hash::group_hash_axioms;
+        proof { axiom_string_hash_key(); }
+//@   endghost
 //@ end
-//@ fn sylt-compiler/src/typechecker.rs inner_resolve_type
+//@ fn sylt-compiler/src/typechecker.rs resolve_constraint
 //@   in TypeChecker
 //@   mode assumed
 //@   ret r
 //@   spec
-        requires old(self).inv2(),
-        ensures final(self).inv2(), final(self).grows(old(self)), r is Ok ==> final(self).valid(r->Ok_0),
+        requires old(self).inv2(), old(self).valid(var),
+        ensures final(self).inv2(), final(self).grows(old(self)),
 //@   endspec
+//@ end
+//@ fn sylt-compiler/src/typechecker.rs inner_resolve_type
+//@   in TypeChecker
+//@   props C02 C03 C07
+//@   attr #[verifier::exec_allows_no_decreases_clause]
+//@   attr #[verifier::loop_isolation(false)]
+//@   ret r
+//@   rewrite equivalent
+//@- for (i, var) in vars.iter().enumerate() {
+//@+ let mut i: usize = 0; for var in vars.iter() {
+//@   why Verus has no specification for Iterator::enumerate: a counter that starts at 0 and is incremented at the end of every iteration (second half below) is the index enumerate yields; every early exit of the body leaves the function
+//@   endrewrite
+//@   rewrite equivalent
+//@- self.unify(span, ctx, var_ty, sub[i])?;
+//@+ self.unify(span, ctx, var_ty, sub[i])?; i += 1;
+//@   why second half of the rewrite above
+//@   endrewrite
+//@   rewrite equivalent
+//@- let params = params
+//@-     .iter()
+//@-     .map(|t| self.inner_resolve_type(ctx, t, seen))
+//@-     .collect::<TypeResult<Vec<_>>>()?;
+//@+ let mut resolved_params: Vec<TyID> = Vec::new();
+//@+ for t in params.iter() { resolved_params.push(self.inner_resolve_type(ctx, t, seen)?); }
+//@+ let params = resolved_params;
+//@   why closure capturing &mut self + collect; collecting Results stops at the first Err and `?` returns it - the same as `?` inside a loop that pushes the Ok values in order
+//@   endrewrite
+//@   rewrite equivalent
+//@- T::Tuple(fields, _) => Type::Tuple(
+//@-     fields
+//@-         .iter()
+//@-         .map(|t| self.inner_resolve_type(ctx, t, seen))
+//@-         .collect::<TypeResult<Vec<_>>>()?,
+//@- ),
+//@+ T::Tuple(fields, _) => Type::Tuple({ let mut resolved_fields: Vec<TyID> = Vec::new();
+//@+ for t in fields.iter() { resolved_fields.push(self.inner_resolve_type(ctx, t, seen)?); }
+//@+ resolved_fields }),
+//@   why as above
+//@   endrewrite
+//@   rewrite equivalent
+//@- let purity = is_pure.then(|| Purity::Pure).unwrap_or(Purity::Undefined);
+//@+ let purity = if *is_pure { Purity::Pure } else { Purity::Undefined };
+//@   why bool::then + unwrap_or is this if
+//@   endrewrite
+//@   rewrite equivalent
+//@- return Ok(*seen
+//@-     .entry(name.clone())
+//@-     .or_insert_with(|| self.push_type(Type::Unknown)))
+//@+ return Ok(match seen.get(name) { Some(known) => *known, None => { let fresh = self.push_type(Type::Unknown); seen.insert(name.clone(), fresh); fresh } })
+//@   why closure capturing &mut self; entry(k).or_insert_with(f) returns the value stored under k, inserting f() first exactly when k is absent
+//@   endrewrite
+//@   spec
+        requires old(self).inv2(), //# C07 inner_resolve_type.pre.inv
+            rt_ok(*ty, old(self).variables@.len() as int), //# C07 inner_resolve_type.pre.type_is_translatable
+            sn_ok(old(seen)@, old(self).types@.len() as int), //# C07 inner_resolve_type.pre.generics_so_far_are_nodes
+            vstd::std_specs::hash::obeys_key_model::<String>(), //# C07 inner_resolve_type.pre.key_model
+        ensures final(self).inv2(), final(self).grows(old(self)), r is Ok ==> final(self).valid(r->Ok_0), //# C02,C07 inner_resolve_type.keeps_invariant
+            sn_ok(final(seen)@, final(self).types@.len() as int), //# C07 inner_resolve_type.generics_are_nodes
+            r is Ok && prim_head(*ty) is Some ==> head(ty_of(final(self).types@, r->Ok_0)) == prim_head(*ty)->Some_0, //# C03 inner_resolve_type.a_primitive_type_annotation_gives_that_type
+//@   endspec
+//@   ghost entry
+        let ghost n = self.variables@.len() as int;
+        broadcast use vstd::std_specs::hash::group_hash_axioms;
+        proof { reveal_with_fuel(rt_ok, 2); }
+//@   endghost
+//@   loop 1 binder it
+            invariant self.inv2(), self.grows(old(self)), sn_ok(seen@, self.types@.len() as int), n == self.variables@.len(), self.valid(ty), //# C02,C07 inner_resolve_type.loop1.aux1
+                ids_below(sub@, self.types@.len() as int), i == it.index@, i <= sub@.len(), //# C07 inner_resolve_type.loop1.aux2
+                it.seq().len() == vars@.len(), forall|k: int| 0 <= k < vars@.len() ==> *(#[trigger] it.seq()[k]) == vars@[k], //# - inner_resolve_type.loop1.aux3
+//@   endloop
+//@   loop 2 binder it
+            invariant self.inv2(), self.grows(old(self)), sn_ok(seen@, self.types@.len() as int), n == self.variables@.len(), //# C02,C07 inner_resolve_type.loop2.aux1
+                ids_below(resolved_params@, self.types@.len() as int), //# C07 inner_resolve_type.loop2.aux2
+                it.seq().len() == params@.len(), forall|k: int| 0 <= k < params@.len() ==> *(#[trigger] it.seq()[k]) == params@[k], //# - inner_resolve_type.loop2.aux3
+//@   endloop
+//@   loop 3
+            invariant self.inv2(), self.grows(old(self)), sn_ok(seen@, self.types@.len() as int), n == self.variables@.len(), //# C02,C07 inner_resolve_type.loop3.aux1
+                ids_below(params@, self.types@.len() as int), self.valid(ret), //# C07 inner_resolve_type.loop3.aux2
+//@   endloop
+//@   loop 4
+            invariant self.inv2(), self.grows(old(self)), sn_ok(seen@, self.types@.len() as int), n == self.variables@.len(), //# C02,C07 inner_resolve_type.loop4.aux1
+                ids_below(params@, self.types@.len() as int), self.valid(ret), self.valid(*var), //# C07 inner_resolve_type.loop4.aux2
+//@   endloop
+//@   loop 5 binder it
+            invariant self.inv2(), self.grows(old(self)), sn_ok(seen@, self.types@.len() as int), n == self.variables@.len(), //# C02,C07 inner_resolve_type.loop5.aux1
+                ids_below(resolved_fields@, self.types@.len() as int), //# C07 inner_resolve_type.loop5.aux2
+                it.seq().len() == fields@.len(), forall|k: int| 0 <= k < fields@.len() ==> *(#[trigger] it.seq()[k]) == fields@[k], //# - inner_resolve_type.loop5.aux3
+//@   endloop
 //@ end
 //@ fn sylt-compiler/src/typechecker.rs add_constraint
 //@   in TypeChecker
@@ -2958,16 +3074,21 @@ impl TypeChecker {
 //@   ret r
 //@   spec
         requires old(self).inv2(), //# C07 type_from_function.spec.aux1
-            forall|k: int| 0 <= k < params@.len() ==> (#[trigger] params@[k]).1 < old(self).variables@.len(), //# C07 type_from_function.pre.params_in_range
+            forall|k: int| 0 <= k < params@.len() ==> (#[trigger] params@[k]).1 < old(self).variables@.len() && rt_ok(params@[k].3, old(self).variables@.len() as int), //# C07 type_from_function.pre.params_in_range
+            rt_ok(*ret, old(self).variables@.len() as int), //# C07 type_from_function.pre.return_type_is_translatable
         ensures final(self).inv2(), final(self).grows(old(self)), //# C07 type_from_function.spec.aux2
             r is Ok ==> final(self).valid(r->Ok_0.0) && final(self).valid(r->Ok_0.1), //# C07 type_from_function.spec.aux3
             r is Ok ==> ty_of(final(self).types@, r->Ok_0.0) is Function, //# C03 type_from_function.builds_function_type
             r is Ok ==> ty_of(final(self).types@, r->Ok_0.0)->Function_0.len() == params@.len(), //# C03 type_from_function.arity_is_param_count
             r is Ok ==> (ty_of(final(self).types@, r->Ok_0.0)->Function_2 is Pure <==> pure) && !(ty_of(final(self).types@, r->Ok_0.0)->Function_2 is Undefined), //# C04 type_from_function.purity_from_literal
 //@   endspec
+//@   ghost entry
+        broadcast use vstd::std_specs::hash::group_hash_axioms;
+        proof { axiom_string_hash_key(); }
+//@   endghost
 //@   loop 1 binder it
             invariant
-                self.inv2(), self.grows(old(self)), //# C07 type_from_function.loop1.aux1
+                self.inv2(), self.grows(old(self)), sn_ok(seen@, self.types@.len() as int), vstd::std_specs::hash::obeys_key_model::<String>(), //# C07 type_from_function.loop1.aux1
                 it.seq().len() == params@.len(), //# - type_from_function.loop1.aux2
                 forall|k: int| 0 <= k < params@.len() ==> *(#[trigger] it.seq()[k]) == params@[k], //# - type_from_function.loop1.aux3
                 args@.len() == it.index@, //# - type_from_function.loop1.aux4
@@ -2995,11 +3116,21 @@ impl TypeChecker {
         ensures final(self).inv2(), final(self).grows(old(self)), //# C07 definition.spec.aux2
             r is Ok && r->Ok_0 is Some ==> final(self).valid(r->Ok_0->Some_0), //# C07 definition.spec.aux3
             ctx.inside_pure && statement->Definition_kind is Mutable ==> r is Err, //# C04 definition.mutable_in_pure_rejected
+            decl_lit_clash(*statement) ==> r is Err, //# C03 definition.a_literal_that_contradicts_the_declared_primitive_type_is_rejected
             r is Ok ==> s_pur(old(self).variables@, *statement, ctx.inside_pure), //# C04 definition.pure_ok
             r is Ok ==> s_brk(*statement, ctx.inside_loop), //# C05 definition.break_ok
 //@   endspec
 //@   ghost entry
         proof { reveal_with_fuel(s_below, 2); reveal_with_fuel(s_nodecl, 2); reveal_with_fuel(s_shape, 2); }
+//@   endghost
+//@   ghost before
+//@| self.add_constraint(ty, *span, Constraint::Variable);
+            let ghost tid = ty;
+            assert(decl_lit_clash(*statement) ==> head(ty_of(self.types@, tid)) == prim_head(statement->Definition_ty)->Some_0); //# - definition.hint1
+//@   endghost
+//@   ghost before
+//@| let (value_ret, value_ty) = self.expression(value, ctx)?;
+            assert(decl_lit_clash(*statement) ==> head(ty_of(self.types@, var_ty)) == prim_head(statement->Definition_ty)->Some_0); //# - definition.hint2
 //@   endghost
 //@ end
 
